@@ -15,6 +15,7 @@ def run(ck: Checker):
     ck.rule('C07-2', 'an id that is no longer in the ledger is tolerated: KeyError handled inside the gather loop', minimum=2)
     ck.rule('C07-3', "abandonment is local: on expiry only the caller's own future is cancelled; ledger, queues and admission condition are not touched; stream cleanup only cancels (WHO)", minimum=4)
     ck.rule('C07-4', 'a late result of an abandoned (cancelled) request still gives its slot back and wakes a waiter: ledger removal and exactly one signal per message whatever the state of the future — otherwise other callers stay blocked (EXITS+COUNT)', minimum=8)
+    ck.rule('C07-7', 'a request abandoned while it waits for admission harms nobody: a waiter that was woken by the per-request notify() and then gives up re-evaluates the capacity guard or passes the wake-up on — otherwise the freed slot is announced to nobody and the other pending callers keep waiting on an idle server (same obligation as C06-13)', minimum=2)
     for name in server.SERVERS:
         s = server.discover(ck.repo, name)
         server.check_slot_return(ck, 'C07-4', s)
@@ -22,6 +23,7 @@ def run(ck: Checker):
         server.check_unknown_id_tolerated(ck, 'C07-2', s)
         server.check_abandon_local(ck, 'C07-3', s)
         server.check_only_deleter(ck, 'C07-3', s)
+        server.check_wakeup_not_wasted(ck, 'C07-7', s)
     # stream cleanup: the only operations on dequeued futures are result / cancel / await
     for q in ('fifo_stream', 'async_fifo_stream'):
         outer = ck.repo.func(STREAMER, q)
@@ -48,3 +50,12 @@ def run(ck: Checker):
         if p.fin is None:
             c05.check_stop_flag(ck, 'C07-5', p)
             c05.check_join_safety(ck, 'C07-5', p)
+    # "the server still shuts down normally": an abandoned request may still be inside an earlier stage when the with-block
+    # is left; its intermediate result must find the next stage alive, i.e. compound servlets stop their members in start
+    # order and every service loop forwards the end sentinel (the C11-4 / C11-6 obligations)
+    from . import c11
+    from .common import SERVLET
+
+    with ck.as_rule('C07-6', 'shutdown with abandoned requests in flight: members are stopped in start order (an upstream stage is stopped first, so what it still produces finds its consumer alive) and every service loop forwards the end sentinel (the C11-4 / C11-6 obligations)', minimum=10):
+        c11.check_pairing(ck, 'C11-4', ck.repo.module(SERVLET))
+        c11.check_sentinels(ck, 'C11-6')
